@@ -81,7 +81,7 @@ def run(ctx):
     # 4. end-to-end layouts sampled by TLC
     nlay = 70 if ctx.quick else 700
     cfg = ctx.path("lay.cfg")
-    open(cfg, "w").write(f'CONSTANTS MaxLines = 5  Kinds = {{"e", "s", "l", "h", "q"}}  Sample = {nlay}\nSPECIFICATION Spec\nINVARIANTS Emit\n')
+    open(cfg, "w").write(f'CONSTANTS MaxLines = 5  Kinds = {{"e", "s", "l", "h", "g", "q"}}  Sample = {nlay}\nSPECIFICATION Spec\nINVARIANTS Emit\n')
     r = tlc_must_pass(ctx, "files/BoundaryLayouts", cfg=cfg, workers=1, tag="lay", mode_args=["-seed", str(ctx.seed)], timeout=1200)
     lays = tlc_cases(r.out)
     # a few fixed corner layouts are always present
@@ -89,7 +89,7 @@ def run(ctx):
         return {"lay": {"lines": list(lines), "crlf": crlf, "trail": trail, "header": header},
                 "records": [i + 1 for i, k in enumerate(lines) if k != "e"]}
     lays += [lay("sssss"), lay("sssss", crlf=True, header=True), lay("slsls", trail=False), lay("esese", crlf=True, trail=False),
-             lay("hsh", header=True), lay("", header=True), lay("s", trail=False), lay("eeeee"), lay("lllll", crlf=True)]
+             lay("hsh", header=True), lay("sgs"), lay("gg", trail=False), lay("", header=True), lay("s", trail=False), lay("eeeee"), lay("lllll", crlf=True)]
     ctx.rng.shuffle(lays)
     e2e = []
     i = 0
@@ -98,9 +98,11 @@ def run(ctx):
         files = lays[i:i + n]
         i += n
         # huge records are expensive with 1-byte chunks: bound the cost
-        huge = sum(f["lay"]["lines"].count("h") for f in files)
+        huge = sum(f["lay"]["lines"].count("h") + 2 * f["lay"]["lines"].count("g") for f in files)
         chunk = ctx.rng.choice([1, 2, 3, 7, 64, 100000]) if huge == 0 else ctx.rng.choice([4096, 16384, 5000, 100000])
-        e2e.append({"files": files, "chunk": chunk, "store": ctx.rng.choice(["mem", "mem", "local"])})
+        hasq = any("q" in f["lay"]["lines"] for f in files)
+        variant = ctx.rng.choice(["plain", "plain", "ordered"] + ([] if hasq else ["semi"]))
+        e2e.append({"files": files, "chunk": chunk, "store": ctx.rng.choice(["mem", "mem", "local"]), "variant": variant})
     write_ndjson(ctx.path("e2e.ndjson"), e2e)
     summary, _ = run_harness(ctx, "vfiles", ["c26", "--cases", ctx.path("cases.ndjson"), "--chunks", "1,2,3,5,0",
                                               "--scaled", ctx.path("scaled.ndjson"), "--e2e", ctx.path("e2e.ndjson"),
@@ -111,8 +113,11 @@ def run(ctx):
     for v in res["violations"]:
         report_violation(ctx, v)
     cnt = res["counters"]
-    if cnt.get("e2e_multi_partition_scans", 0) == 0 or cnt.get("e2e_ranged_gets", 0) == 0:
-        raise ToolError("vacuity: no end-to-end scan was split into byte ranges")
+    must = ["e2e_multi_partition_scans", "e2e_ranged_gets", "e2e_refill_gets", "e2e_scans_with_two_or_more_refill_gets", "e2e_partition_ownership_checked",
+            "e2e_csv_custom_terminator_cases", "e2e_declared_order_cases", "stream_files_with_custom_terminator", "partitioner_layouts"]
+    never = [m for m in must if cnt.get(m, 0) == 0]
+    if never:
+        raise ToolError(f"vacuity: paths never exercised in this run: {never}")
     write_evidence(ctx, "model_checking", {
         "states": states, "transitions": transitions,
         "traces_validated_against_impl": res["evaluations"],
@@ -127,7 +132,8 @@ def run(ctx):
         "counters": cnt,
         "rule": "a case is <file, byte range, chunk size[, scale]> run on the real AlignedBoundaryStream (non-trivial: start>0, end<size, non-empty yield), or <files, format, target_partitions, chunk, store> scanned end-to-end (non-trivial: more than one output partition and at least one record), or a FileGroupPartitioner result with a file split in >1 ranges; distinct = distinct such tuples",
     }, assumptions=[
-        "terminator is LF (CR is content for range alignment; CRLF files are covered because the CSV/JSON decoders treat CR LF as a line end)",
+        "terminator is LF, or ';' for a third of the byte-exact files and for CSV tables scanned with terminator=';' (CR is content for range alignment; CRLF files are covered because the CSV/JSON decoders treat CR LF as a line end)",
+        "compressed files and the JSON array format are not scanned in ranges by the engine (the former are never split, the latter is refused with NotImplemented) and are not generated",
         "scaled cases derive the expected interval from the specification's AlignStart by the homomorphism position p -> K*p (line starts of the expanded file are K x the model's)",
         "CSV files with quoted line breaks are scanned with newlines_in_values=true (documented requirement); the engine then must not split them",
         "binding demonstrated while building: model-side mutations (search from `end` instead of `end-1`; `>` for `>=` at the start alignment; never stopping at a terminator that ends exactly at `end`) are rejected by TLC (PrefixOK / assertion), and corrupting one expected interval makes the driver report a stream mismatch",
